@@ -123,7 +123,8 @@ func (_this *Context) IgnoreNext() {
 func (_this *Context) BeginRecordType(id []byte) {
 	_this.StackBuilder(generateRecordTypeBuilder(_this))
 	_this.recordTypeName = string(id)
-	_this.recordType = _this.recordType[:0]
+	// A new slice: the previous one is now owned by its entry in recordTypes.
+	_this.recordType = nil
 }
 
 func (_this *Context) BeginRecord(id []byte) {
